@@ -257,6 +257,62 @@ pub fn specs() -> Vec<PropSpec> {
             assumptions: COMMON_ASSUMPTIONS,
         },
         PropSpec {
+            id: "C07",
+            parts: &[("c07", 320, 8000), ("c18", 96, 2000)],
+            level: "exploration",
+            tags: &["C07"],
+            rule: "Each evaluation is one seeded concurrent scenario on the \
+                real runtime (disk or memory back-end by seed): a \
+                sequential prefix of 4-10 operations builds a small \
+                delegation tree; then 2-3 threads issue 1-3 API commands \
+                each (ROA/ASPA deltas, child entitlement and suspension \
+                changes, key-roll steps, bulk refresh / re-publication; \
+                accepted, refused and no-op ones; generated against the \
+                same reached state, so they often target the same CA) \
+                while a reader thread keeps reading every CA. The threads \
+                are real OS threads released one at a time by the \
+                cooperative scheduler at Krill's storage and lock switch \
+                points (uniform random with a drawn preemption rate, or \
+                PCT with 1-4 priority change points); the decision list \
+                is recorded. Checked: every CA's versions are consecutive \
+                and the stored command-N records are exactly 0..version; \
+                a reader never sees a version go back or beyond the final \
+                one and never two contents for one version; and a serial \
+                witness: the same prefix is built again and the calls are \
+                issued one at a time in their commit order (order of the \
+                command-record stores in the trace) - per-call results, \
+                the multiset of new audit records per CA and the \
+                normalised observable state after quiescence must be \
+                equal. Non-trivial: at least one accepted command; \
+                distinct: distinct (decision list, operations, results) \
+                fingerprints.",
+            assumptions: CONC_ASSUMPTIONS,
+        },
+        PropSpec {
+            id: "C18",
+            parts: &[("c18", 320, 8000), ("c07", 96, 2000)],
+            level: "exploration",
+            tags: &["C18", "LIVENESS"],
+            rule: "Each evaluation is one seeded concurrent scenario as \
+                for C07 but with 2-4 API threads next to a scheduler \
+                thread that runs the real background tasks (parent and \
+                repository synchronisation, RRDP updates, ...) through the \
+                real scheduler loop while the calls are in flight; parent \
+                and child are hosted by the same instance. Checked: no \
+                deadlock (every unfinished thread blocked on a lock with \
+                no progress possible), completion within 400000 \
+                scheduling steps, every call returns, no panic and no \
+                daemon exit on any thread; after background work has \
+                caught up the tree is relying-party valid; and, whenever \
+                the per-call results equal those of the serial witness \
+                (the same calls one at a time in commit order, then all \
+                tasks), the normalised observable state must equal the \
+                witness's (results that differ because a task ran in \
+                between are counted as undecided, not as violations). \
+                Non-trivial/distinct as for C07.",
+            assumptions: CONC_ASSUMPTIONS,
+        },
+        PropSpec {
             id: "C05",
             parts: &[("c05", 480, 6000)],
             level: "exploration",
@@ -280,6 +336,21 @@ pub fn specs() -> Vec<PropSpec> {
         },
     ]
 }
+
+pub const CONC_ASSUMPTIONS: &[&str] = &[
+    "interleavings are explored at the granularity of Krill's storage \
+     operations and lock acquisitions (cfg-gated switch points); code \
+     between two switch points runs atomically, so data races on plain \
+     memory are out of reach",
+    "the async facade runs its closures inline on the calling thread \
+     (hook `inline_pool`); the tokio worker pool and hyper are not part of \
+     the simulation",
+    "the serial witness orders calls by the store of their command record; \
+     calls that store no command are ordered by their start",
+    "rpki-rs decoding and validation are correct (trusted base of the \
+     relying-party walk)",
+    "RSA keys come from a committed pool; OpenSSL's DRBG is not seeded",
+];
 
 pub const COMMON_ASSUMPTIONS: &[&str] = &[
     "rpki-rs decoding and validation are correct (trusted base of the \
@@ -323,6 +394,21 @@ pub fn run_profile(
     }
     if let Some(profile) = crate::cuts::profile(name) {
         return crate::cuts::run_pair(seed, &profile)
+    }
+    if let Some(profile) = crate::conc::profile(name) {
+        let res = std::thread::Builder::new()
+            .stack_size(32 * 1024 * 1024)
+            .spawn(move || crate::conc::run(seed, &profile, None))
+            .expect("spawn").join();
+        return match res {
+            Ok(report) => report,
+            Err(p) => RunReport {
+                seed,
+                profile: name.to_string(),
+                harness_error: Some(crate::util::panic_message(&p)),
+                ..Default::default()
+            }
+        }
     }
     if name == "c09queue" {
         let res = std::thread::Builder::new()
